@@ -161,6 +161,10 @@ impl DevCfg {
                 if let Some((s, n)) = self.join_bias {
                     if n == 1 {
                         r.set_join_bias(sb(s));
+                    } else if n == 255 {
+                        // a bias configured and withdrawn again before the device is built
+                        r.set_join_bias(sb(s));
+                        r.clear_join_bias();
                     } else {
                         r.set_join_bias_and_noncompliant_retries(sb(s), n);
                     }
@@ -172,6 +176,10 @@ impl DevCfg {
                 if let Some((s, n)) = self.join_bias {
                     if n == 1 {
                         r.set_join_bias(sb(s));
+                    } else if n == 255 {
+                        // a bias configured and withdrawn again before the device is built
+                        r.set_join_bias(sb(s));
+                        r.clear_join_bias();
                     } else {
                         r.set_join_bias_and_noncompliant_retries(sb(s), n);
                     }
